@@ -64,3 +64,20 @@ func VerifStreamTransport(kind string, conn net.Conn, mtu int, onFrame func([]by
 	s.SetMTU(mtu)
 	return t.runReceive, t.sendFrame, t.Close, nil
 }
+
+// VerifUDPTransport builds the REAL UnicastUDPTransport from 127.0.0.1:localPort to
+// 127.0.0.1:remotePort with a frame sink as its link service and SetMTU(mtu) applied, and returns
+// its receive loop, its sendFrame and its Close (see VerifStreamTransport).
+func VerifUDPTransport(localPort, remotePort uint16, mtu int, onFrame func([]byte)) (recv func(), send func([]byte), closeT func(), err error) {
+	t, err := MakeUnicastUDPTransport(defn.MakeUDPFaceURI(4, "127.0.0.1", remotePort),
+		defn.MakeUDPFaceURI(4, "127.0.0.1", localPort), PersistencyPersistent)
+	if err != nil {
+		return nil, nil, nil, err
+	}
+	s := &verifFrameSink{onFrame: onFrame}
+	s.makeLinkServiceBase()
+	s.transport = t
+	t.setLinkService(s)
+	s.SetMTU(mtu)
+	return t.runReceive, t.sendFrame, t.Close, nil
+}
